@@ -5,14 +5,22 @@ from efsim.spec import SERVER_CLASSES
 
 ZONES = ["Europe/Paris", "Europe/London", "America/New_York", "Asia/Kolkata", "Asia/Kathmandu",
          "Australia/Sydney", "Australia/Lord_Howe", "UTC", "Asia/Tokyo", "America/Sao_Paulo",
-         "Pacific/Apia", "Africa/Dakar", "America/St_Johns", "fixed:330", "fixed:-210"]
-# ("fixed:<minutes>" is a pytz.FixedOffset: a time zone without a zone name)
+         "Pacific/Apia", "Africa/Dakar", "America/St_Johns", "fixed:330", "fixed:-210", "zi:Europe/Berlin",
+         "zi:America/Chicago", "dt:0", "dt:345"]
+# ("fixed:<minutes>" is a pytz.FixedOffset: a time zone without a zone name; "zi:<key>" a zoneinfo.ZoneInfo;
+#  "dt:<minutes>" a datetime.timezone)
 
 
 def timezone_of(zone):
     import pytz
     if zone.startswith("fixed:"):
         return pytz.FixedOffset(int(zone.split(":")[1]))
+    if zone.startswith("zi:"):
+        import zoneinfo
+        return zoneinfo.ZoneInfo(zone[3:])
+    if zone.startswith("dt:"):
+        import datetime
+        return datetime.timezone(datetime.timedelta(minutes=int(zone[3:])))
     return pytz.timezone(zone)
 # start instants biased towards DST transition days (EU 2025-03-30 / 2025-10-26, US 2025-03-09 / 2025-11-02,
 # AU 2025-04-06 / 2025-10-05) plus ordinary days
